@@ -27,7 +27,7 @@ PLAN = {
     "C02": {"mc": ["MC_Frag", "MC_FragReal", "MC_FragLive", "MC_Rx"], "drivers": [D("chains"), D("lattice")]},
     "C03": {"mc": ["MC_Rx", "MC_Crc"], "drivers": [D("rxscn", "--scn", "@gen:Gen_Rx"), D("faults"), D("chains"), D("ext")]},
     "C04": {"mc": ["MC_Labels"], "drivers": [D("labels"), D("labels", "--scn", "@gen:Gen_Labels"), D("chains")]},
-    "C05": {"mc": ["MC_Wire", "MC_Rx"], "drivers": [D("fuzzrx"), D("faults")]},
+    "C05": {"mc": ["MC_Wire", "MC_Rx"], "drivers": [D("fuzzrx"), D("faults"), D("ext")]},
     "C06": {"mc": ["MC_Frag", "MC_FragReal", "MC_Wire"], "drivers": [D("lattice"), D("chains"), D("ext")]},
     "C07": {"mc": ["MC_Rx"], "drivers": [D("rxscn", "--scn", "@gen:Gen_Rx"), D("interleave"), D("frames")]},
     "C08": {"mc": ["MC_Rx", "MC_Memory"], "drivers": [D("rxscn", "--scn", "@gen:Gen_Rx"), D("fuzzrx"), D("faults"), D("interleave"), D("labels")]},
